@@ -221,9 +221,19 @@ func typedNode(t *TypedRef) (datamodel.Node, ref.Val, error) {
 			continue
 		}
 		ty := s.T(t.Type)
-		nb := bindEngine.Proto(s, t.Type, false).NewBuilder()
-		if err := ref.Assign(nb, s.FeedType(ty, t.Value)); err != nil {
-			return nil, ref.Val{}, err
+		var nb datamodel.NodeBuilder
+		if s.ComplexKeys(ty) {
+			// struct-keyed maps are built through the representation builder (rs.ComplexKeys)
+			nb = bindEngine.Proto(s, t.Type, true).NewBuilder()
+			r, _ := s.Repr(ty, t.Value)
+			if err := ref.Assign(nb, r); err != nil {
+				return nil, ref.Val{}, err
+			}
+		} else {
+			nb = bindEngine.Proto(s, t.Type, false).NewBuilder()
+			if err := ref.Assign(nb, s.FeedType(ty, t.Value)); err != nil {
+				return nil, ref.Val{}, err
+			}
 		}
 		n := nb.Build()
 		if t.Repr {
@@ -423,6 +433,9 @@ func Universe(quick bool) []Case {
 					continue
 				}
 				for _, repr := range []bool{false, true} {
+					if !repr && s.ComplexKeys(ty) {
+						continue // the type-level view of a struct-keyed map has keys no codec can write
+					}
 					for _, codec := range []uint64{DagCbor, DagJson} {
 						var dm ref.Val
 						if repr {
